@@ -301,8 +301,41 @@ def emit_nontrivial(fn, p):
     return len(p.get("bdt", ())) >= 2 or len(p.get("fdt", ())) >= 2 or len(p.get("data", b"")) >= 1
 
 
+def _tracing(on):
+    import logging
+    from bacpypes import bvll as B_, bvllservice as BS_, comm as C_, pdu as P_
+    for m_ in (B_, BS_, C_, P_):
+        m_._debug = 1 if on else 0
+    logging.getLogger("bacpypes").setLevel(logging.DEBUG if on else logging.WARNING)
+
+
 def judge(case):
+    if case.get("dbg"):
+        _tracing(True)
+        try:
+            v = judge(dict((k_, v_) for k_, v_ in case.items() if k_ != "dbg"))
+        finally:
+            _tracing(False)
+        return Verdict(v.fails, v.nontrivial, tuple(v.labels) + ("tracing-on",))
     k = case["k"]
+    if k == "bbmdfdt":
+        from bacpypes.bvllservice import BIPBBMD
+        from bacpypes import bvll as B_
+        L = lib()
+        bb = BIPBBMD(L.Address("192.168.1.2/24"))
+        bb.register_foreign_device(L.Address("192.168.9.9"), case["ttl"])
+        del L.bottom.got[:]
+        fails = []
+        try:
+            L.top.request(B_.ReadForeignDeviceTableAck(bb.bbmdFDT))
+            fn, p = R.decode(bytes(L.bottom.got[0].pduData))
+            if [e[1] for e in p["fdt"]] != [case["ttl"]]:
+                fails.append(("emit:ReadForeignDeviceTableAck:bbmd:ttl-field", "TTL %d reported as %r" % (case["ttl"], [e[1] for e in p["fdt"]])))
+        except Exception as err:
+            if case["ttl"] + 5 <= 65535:
+                fails.append(("emit:ReadForeignDeviceTableAck:bbmd:raised:%s" % type(err).__name__, repr(err)))
+        bb.suspend_task()
+        return Verdict(fails, True, ("emit:bbmd-table",))
     if k == "emit":
         p = p_from_json(case["p"])
         fails, octets = check_emit(case["fn"], p)
@@ -388,6 +421,8 @@ def plan(tier, seed):
             specs.append(dict(name="strings3-%x" % hi, kind="strings", length=3, first_hi=hi))
     for i in range(3):
         specs.append(dict(name="mutated-%d" % i, kind="mutated", n=4000 if tier == "quick" else 50000))
+    specs.append(dict(name="tracing-on", kind="debug", n=600 if tier == "quick" else 6000))
+    specs.append(dict(name="bbmd-table-reply", kind="bbmdfdt"))
     return specs
 
 
@@ -396,6 +431,37 @@ BODIES = (b"", b"\x00\x1e", b"\x01\x02\x03\x04\xba\xc0", b"\x01\x02\x03\x04\xba\
 
 def run(spec, ctx):
     kind = spec["kind"]
+    if kind == "debug":
+        # the same messages with the library's debug tracing switched on (what --debug does): tracing must not change a single octet
+        emit, P = strategies()
+        ctx.for_all(emit.map(lambda c_: dict(c_, dbg=1)), spec["n"], salt=3)
+        return
+    if kind == "bbmdfdt":
+        # the table a real BBMD reports: the TTL of every entry is the TTL that was registered, up to the 16-bit limit
+        from bacpypes.bvllservice import BIPBBMD
+        from bacpypes import bvll as B_
+        L = lib()
+        n_ = 0
+        for ttl in (1, 30, 65529, 65530, 65531, 65532, 65533, 65534, 65535):
+            bb = BIPBBMD(L.Address("192.168.1.2/24"))
+            bb.register_foreign_device(L.Address("192.168.9.9"), ttl)
+            bb.register_foreign_device(L.Address("192.168.9.10"), 7)
+            ack = B_.ReadForeignDeviceTableAck(bb.bbmdFDT)
+            del L.bottom.got[:]
+            n_ += 1
+            try:
+                L.top.request(ack)
+                octets = bytes(L.bottom.got[0].pduData)
+                fn, p = R.decode(octets)
+                ttls = [e[1] for e in p["fdt"]]
+                if ttls != [ttl, 7]:
+                    ctx.fail(dict(k="bbmdfdt", ttl=ttl), "emit:ReadForeignDeviceTableAck:bbmd:ttl-field", "registered TTLs %r, the table reply says %r (%s)" % ([ttl, 7], ttls, octets.hex()))
+            except Exception as err:
+                if ttl + 5 <= 65535:
+                    ctx.fail(dict(k="bbmdfdt", ttl=ttl), "emit:ReadForeignDeviceTableAck:bbmd:raised:%s" % type(err).__name__, "TTL %d: %r" % (ttl, err))
+            bb.suspend_task()
+        ctx.bulk(n_, n_, "emit:bbmd-table", dict(k="bbmdfdt", ttl=65535))
+        return
     if kind == "emit":
         emit, P = strategies()
         ctx.for_all(emit, spec["n"])
